@@ -1,6 +1,8 @@
 import Driver.Sess
 import Driver.Concurrency
+import Driver.Facet
 import Driver.Field
+import Driver.Keyword
 import Driver.Persist
 import Driver.Query
 import Driver.Reads
@@ -9,7 +11,9 @@ open Driver
 
 def sessions : List (String × Sess) := [
   ("concurrency", ConcurrencyS.sess),
+  ("facet", FacetS.sess),
   ("field", FieldS.sess),
+  ("keyword", KeywordS.sess),
   ("persist", PersistS.sess),
   ("query", QueryS.sess),
   ("reads", ReadsS.sess),
